@@ -244,11 +244,22 @@ def enf2_rule(prog, rep, rule="ENF-2"):
             guards = list(e.guards())
             # a filter on the iterated list counts as a guard of the loop body
             g = e.x.g
+            from ..dataflow import reaching_defs, def_value
             for hd in g.nodes:
-                if hd.kind == "for" and g.dominates(hd, e.inner) and isinstance(hd.ast.iter, (ast.ListComp, ast.GeneratorExp)) \
-                        and len(hd.ast.iter.generators) == 1 and isinstance(hd.ast.iter.elt, ast.Name) and isinstance(hd.ast.target, ast.Name):
-                    gen = hd.ast.iter.generators[0]
-                    if isinstance(gen.target, ast.Name) and gen.target.id == hd.ast.iter.elt.id:
+                if not (hd.kind == "for" and g.dominates(hd, e.inner) and isinstance(hd.ast.target, ast.Name)):
+                    continue
+                it = hd.ast.iter
+                if isinstance(it, ast.Name):
+                    # the filtered sequence may be kept in a local first
+                    ds = [d for d in reaching_defs(g, hd, it.id) if d.id != hd.id]
+                    if len(ds) == 1 and ds[0].kind != "entry" and def_value(ds[0], it.id) is not None:
+                        it = def_value(ds[0], it.id)
+                if isinstance(it, ast.Call) and isinstance(it.func, ast.Name) and it.func.id in ("list", "tuple") and len(it.args) == 1:
+                    it = it.args[0]
+                if isinstance(it, (ast.ListComp, ast.GeneratorExp)) \
+                        and len(it.generators) == 1 and isinstance(it.elt, ast.Name):
+                    gen = it.generators[0]
+                    if isinstance(gen.target, ast.Name) and gen.target.id == it.elt.id:
                         for cond in gen.ifs:
                             for t, p in atoms_of(e.x.expand(cond, hd), True):
                                 guards.append((t, p))
